@@ -51,6 +51,18 @@ for _p, _t, _tech in [
      "TLA+ model (set semantics) + TLC; spec->code replay of permuted presentations; TLC trace validation of permuted programs"),
 ]:
     CLAIMED[_p] = dict(category="model_checking", text=_t, design="6/" + _p, technique=_tech, note=AUTHZ_NOTE)
+CLAIMED["C13"] = dict(category="model_checking",
+    text="Lifecycle.tla models the authorizer object (New/Add/Authorize/Query/Reset with base world); TLC checks ResetClean on every "
+         "history of 2-3 rounds and refutes it for the pinned tree's mechanism (base overwritten after Authorize). Every history is replayed "
+         "on one reused authorizer and each round's verdict and query results must be those of a fresh authorizer (the model's values).",
+    design="6/C13", technique="TLA+ lifecycle state machine + TLC invariant ResetClean; spec->code replay of all round histories",
+    note=AUTHZ_NOTE)
+CLAIMED["C18"] = dict(category="model_checking",
+    text="Lifecycle.tla models SerializePolicies/LoadPolicies; TLC checks SnapshotEquiv and SaveRefusedIffEvaluated over all histories "
+         "(3x3 tokens x 24 contents x evaluated/unevaluated) and exports them; replay saves on the real authorizer, loads into a fresh one "
+         "for any token and compares verdict and query results with the model.",
+    design="6/C18", technique="TLA+ lifecycle state machine + TLC; spec->code replay of save/load histories",
+    note=AUTHZ_NOTE + " Malformed snapshot bytes are exercised under C10's corruption operators, not here.")
 
 PENDING_REASON = "check under construction in this round (specification module not yet bound to the code); not claimed until it runs green"
 
